@@ -40,9 +40,17 @@ type setCall struct {
 type spyStore struct {
 	*storage.MemoryStore
 	sets []setCall
+	// loseRace makes the next mark call fail with ErrJTIKnown without marking, as it does when a concurrent
+	// presentation of the same jti wins between the check and the mark (lemma L1 must hold for such stores too).
+	loseRace bool
 }
 
 func (s *spyStore) SetClientAssertionJWT(ctx context.Context, jti string, exp time.Time) error {
+	if s.loseRace {
+		s.loseRace = false
+		s.sets = append(s.sets, setCall{jti, exp, fosite.ErrJTIKnown})
+		return fosite.ErrJTIKnown
+	}
 	err := s.MemoryStore.SetClientAssertionJWT(ctx, jti, exp)
 	s.sets = append(s.sets, setCall{jti, exp, err})
 	return err
@@ -254,16 +262,39 @@ func (w *world) checkAccepted(sp *spec, cl fosite.Client, nSetsBefore int, tag s
 	}
 }
 
+// all is a conjunction that does not fork the symbolic execution (zz.And builds one Boolean term).
+func all(bs ...bool) bool {
+	r := true
+	for _, b := range bs {
+		r = zz.And(r, b)
+	}
+	return r
+}
+
+func isStr(c claim, v string) bool { return c.kind == "str" && zz.StrEq(c.s, v) }
+
 // legit: a sufficient condition under which the assertion must authenticate c1 (liveness direction).
 func (w *world) legit(sp *spec) bool {
-	return sp.key.owner == "c1" && (sp.key.name != "B" || w.useB == "sig") &&
-		(sp.kid == "" || sp.kid == sp.key.kid) &&
+	if !(sp.key.owner == "c1" && (sp.key.name != "B" || w.useB == "sig") && (sp.kid == "" || sp.kid == sp.key.kid) &&
 		sp.alg == effAlg(w.regAlg["c1"]) && fits(sp.alg, sp.key.kind) &&
-		sp.iss.kind == "str" && sp.iss.s == "c1" && sp.sub.kind == "str" && sp.sub.s == "c1" &&
-		(sp.clientID == "" || sp.clientID == "c1") && audHasTokenURL(sp.aud) &&
-		sp.exp.kind == "num" && sp.exp.n > sp.now.Unix() &&
-		sp.iat.kind != "num" && sp.nbf.kind != "num" && // (keeps the predicate simple; time claims are exercised separately)
-		sp.jti.kind == "str" && sp.jti.s != ""
+		sp.iss.kind == "str" && sp.sub.kind == "str" && sp.exp.kind == "num" && sp.jti.kind == "str" &&
+		sp.iat.kind != "num" && sp.nbf.kind != "num") { // (time claims other than exp are exercised separately)
+		return false
+	}
+	audOK := false
+	switch sp.aud.kind {
+	case "str":
+		audOK = zz.StrEq(sp.aud.s, tokenURL)
+	case "list":
+		for _, e := range sp.aud.l {
+			if s, ok := e.(string); ok {
+				audOK = zz.Or(audOK, zz.StrEq(s, tokenURL))
+			}
+		}
+	}
+	return all(isStr(sp.iss, "c1"), isStr(sp.sub, "c1"),
+		zz.Or(zz.StrEq(sp.clientID, ""), zz.StrEq(sp.clientID, "c1")), audOK,
+		sp.exp.n > sp.now.Unix(), zz.Not(zz.StrEq(sp.jti.s, "")))
 }
 
 // baseline returns a spec whose every claim is a symbolic value of the right type.
@@ -292,7 +323,10 @@ func kindsAB() (string, string) {
 // ZZ_C15_assertion_claims: every claim absent / wrong type / wrong value / boundary time, with a legitimate
 // or foreign signing key.
 func ZZ_C15_assertion_claims() {
-	kindA, kindB := kindsAB()
+	kindA, kindB := zzjwt.RSA, zzjwt.P256
+	if zz.Thorough() {
+		kindA, kindB = kindsAB()
+	}
 	w := newWorld(kindA, kindB, zzjwt.NaturalAlg(kindA), false, "sig")
 	now := time.Now()
 	sp := baseline(w, now)
@@ -369,15 +403,204 @@ func ZZ_C15_assertion_claims() {
 	if err == nil {
 		zz.Cover("claims:accepted", true)
 		w.checkAccepted(sp, cl, n0, "claims")
-		zz.Cover("claims:accepted-aud-list", sp.aud.kind == "list")
-		zz.Cover("claims:accepted-without-client_id", sp.clientID == "")
-		zz.Cover("claims:accepted-with-iat", sp.iat.kind == "num")
+		if sp.aud.kind == "list" {
+			zz.Cover("claims:accepted-aud-list", true)
+		} else if sp.iat.kind == "num" {
+			zz.Cover("claims:accepted-with-iat", true)
+		} else if sp.clientID == "" {
+			zz.Cover("claims:accepted-without-client_id", true)
+		}
 	} else {
 		zz.Cover("claims:refused", true)
 		zz.Assert(!w.legit(sp), "claims: a complete, correctly signed assertion authenticates the client")
-		zz.Cover("claims:refused-foreign-key", sp.key.name == "C")
-		zz.Cover("claims:refused-expired", sp.key.name == "A" && sp.exp.kind == "num" && sp.exp.n < now.Unix())
-		zz.Cover("claims:refused-jti-missing", sp.jti.kind == "absent")
-		zz.Cover("claims:refused-aud-wrong-type", sp.aud.kind == "num")
+		if sp.jti.kind == "absent" {
+			zz.Cover("claims:refused-jti-missing", true)
+		} else if sp.aud.kind == "num" {
+			zz.Cover("claims:refused-aud-wrong-type", true)
+		} else if sp.key.name == "C" {
+			zz.Cover("claims:refused-foreign-key", true)
+		} else if sp.exp.kind == "num" && sp.exp.n < now.Unix() {
+			zz.Cover("claims:refused-expired", true)
+		}
+	}
+}
+
+// concrete returns a complete, valid assertion for client id with the given lifetime (seconds).
+func concrete(w *world, now time.Time, id string, key *key, alg string, jti string, life int64) *spec {
+	return &spec{now: now, alg: alg, key: key,
+		iss: claim{kind: "str", s: id}, sub: claim{kind: "str", s: id},
+		aud: claim{kind: "str", s: tokenURL}, jti: claim{kind: "str", s: jti},
+		exp: claim{kind: "num", n: now.Unix() + life}, iat: claim{kind: "absent"}, nbf: claim{kind: "absent"}}
+}
+
+// ZZ_C15_assertion_keys: header alg / kid games and signing key in {registered (A, B), other client's (C),
+// unregistered (U)} against the registered algorithm and JWKS shape. iss = sub = a symbolic id.
+func ZZ_C15_assertion_keys() {
+	kindA, kindB := kindsAB()
+	hasB, useB := false, "sig"
+	switch zz.Choice("jwks", 3) {
+	case 1:
+		hasB = true
+	case 2:
+		hasB, useB = true, "enc"
+	}
+	regAlg := zzjwt.NaturalAlg(kindA)
+	nReg := 2
+	if zz.Thorough() {
+		nReg = 4
+	}
+	switch zz.Choice("regalg", nReg) {
+	case 1:
+		regAlg = "" // default RS256
+	case 2:
+		regAlg = zzjwt.NaturalAlg(kindB)
+	case 3:
+		regAlg = "PS256"
+	}
+	w := newWorld(kindA, kindB, regAlg, hasB, useB)
+	now := time.Now()
+	id := zz.String("id", 3)
+	signers := []string{"A", "C", "U"}
+	if hasB {
+		signers = []string{"A", "B", "C", "U"}
+	}
+	k := w.keys[signers[zz.Choice("signer", len(signers))]]
+	algs := []string{"RS256", "ES256", "PS256", "HS256", "none"}
+	if zz.Thorough() {
+		algs = append(algs, "XS999", "ES384", "RS512", "")
+	}
+	alg := algs[zz.Choice("alg", len(algs))]
+	sp := concrete(w, now, id, k, alg, "jti-1", 600)
+	kids := []string{"", "kA", "zz"}
+	if hasB {
+		kids[2] = "kB"
+	}
+	if zz.Thorough() {
+		kids = []string{"", "kA", "kB", "zz"}
+	}
+	sp.kid = kids[zz.Choice("kid", len(kids))]
+	tok := sp.token()
+	n0 := len(w.store.sets)
+	cl, err := w.present(tok, "")
+	zz.Observe("keys.err", errName(err))
+	if err == nil {
+		zz.Cover("keys:accepted", true)
+		w.checkAccepted(sp, cl, n0, "keys")
+		if k.name == "B" {
+			zz.Cover("keys:accepted-second-key", true)
+		} else if cl.GetID() == "c2" {
+			zz.Cover("keys:accepted-other-client", true)
+		} else if regAlg == "" {
+			zz.Cover("keys:accepted-default-alg", true)
+		} else if sp.kid != "" {
+			zz.Cover("keys:accepted-with-kid", true)
+		}
+	} else {
+		zz.Cover("keys:refused", true)
+		zz.Assert(!w.legit(sp), "keys: a complete assertion signed by a registered key with the registered algorithm authenticates")
+		if id == "c1" {
+			switch {
+			case k.name == "U" && fits(alg, k.kind):
+				zz.Cover("keys:refused-unregistered-key", true)
+			case k.name == "C" && fits(alg, k.kind):
+				zz.Cover("keys:refused-other-clients-key", true)
+			case alg == "HS256" && k.name == "A":
+				zz.Cover("keys:refused-hs256", true)
+			case alg == "none" && k.name == "A":
+				zz.Cover("keys:refused-none", true)
+			case k.name == "A" && fits(alg, k.kind) && alg != effAlg(regAlg):
+				zz.Cover("keys:refused-alg-not-registered", true)
+			case k.name == "A" && sp.kid != "" && sp.kid != "kA" && fits(alg, k.kind) && alg == effAlg(regAlg):
+				zz.Cover("keys:refused-kid-mismatch", true)
+			case k.name == "B" && useB == "enc" && fits(alg, k.kind) && alg == effAlg(regAlg):
+				zz.Cover("keys:refused-use-enc", true)
+			}
+		}
+	}
+}
+
+const slack = 150 * time.Millisecond
+
+// ZZ_C15_assertion_replay: jti once. A valid assertion is accepted, then presented again (or another assertion
+// with the same jti, or with a fresh jti) at a symbolic later instant placed relative to the first assertion's exp.
+func ZZ_C15_assertion_replay() {
+	zz.Note("C15 concurrency clause: covered compositionally - L1 (this harness: success => the mark call returned nil), L2 (storage step lemma ZZ_C15_jti_step), L3 (C19 lock lemma: SetClientAssertionJWT runs under the blacklistedJTIsMutex write lock); interleavings are not enumerated")
+	kindA, kindB := kindsAB()
+	w := newWorld(kindA, kindB, zzjwt.NaturalAlg(kindA), false, "sig")
+	now := time.Now()
+	jti := zz.String("jti", 4)
+	zz.Assume(jti != "")
+	life := zz.Int("life", 1, 3600)
+	sp := concrete(w, now, "c1", w.keys["A"], zzjwt.NaturalAlg(kindA), jti, life)
+	tok := sp.token()
+	if zz.Choice("loserace", 2) == 1 {
+		// L1: when the mark call reports that somebody else marked the jti first, the assertion is refused
+		w.store.loseRace = true
+		_, err := w.present(tok, "")
+		zz.Observe("lost.err", errName(err))
+		zz.Cover("replay:mark-call-lost-the-race", true)
+		zz.Assert(err != nil, "replay: refused when SetClientAssertionJWT does not return nil")
+		return
+	}
+	n0 := len(w.store.sets)
+	cl, err := w.present(tok, "")
+	zz.Observe("first.err", errName(err))
+	zz.Assert(err == nil, "replay: first presentation of a valid assertion is accepted")
+	if err != nil {
+		return
+	}
+	w.checkAccepted(sp, cl, n0, "first")
+
+	// second presentation at exp + delta
+	expT := time.Unix(sp.exp.n, 0)
+	delta := time.Duration(zz.Int("delta", -int64(3600*time.Second), int64(3*time.Second)))
+	// the second instant lies after the first one whatever the sub-second phase of the clock is
+	zz.Assume(time.Duration(life)*time.Second+delta >= 1100*time.Millisecond)
+	zz.Advance(expT.Add(delta).Sub(time.Now()))
+	now2 := time.Now()
+	variant := zz.Choice("second", 3)
+	sp2 := sp
+	tok2 := tok
+	switch variant {
+	case 1: // another assertion, same jti, valid for another hour from now
+		sp2 = concrete(w, now2, "c1", w.keys["A"], zzjwt.NaturalAlg(kindA), jti, 3600)
+		tok2 = sp2.token()
+	case 2: // another assertion with another jti
+		jti2 := zz.String("jti2", 4)
+		zz.Assume(jti2 != "" && jti2 != jti)
+		sp2 = concrete(w, now2, "c1", w.keys["A"], zzjwt.NaturalAlg(kindA), jti2, 3600)
+		tok2 = sp2.token()
+	}
+	n1 := len(w.store.sets)
+	cl2, err2 := w.present(tok2, "")
+	zz.Observe("second.err", errName(err2))
+	sp2.now = now2
+	switch variant {
+	case 0:
+		if delta < -slack {
+			zz.Cover("replay:same-assertion-while-valid", true)
+			zz.Assert(err2 != nil, "replay: the same assertion is refused while it is unexpired")
+			zz.Assert(errName(err2) == "jti_known", "replay: refused as a known jti")
+		} else if delta > slack && delta < time.Second-slack {
+			zz.Cover("replay:same-assertion-in-its-last-second", true)
+			zz.Assert(err2 != nil, "replay: the same assertion is refused in the last second of its validity")
+		} else if delta > time.Second+slack {
+			zz.Cover("replay:same-assertion-expired", true)
+			zz.Assert(err2 != nil, "replay: the same assertion is refused after expiry")
+		}
+	case 1:
+		if delta < -slack {
+			zz.Cover("replay:same-jti-new-assertion", true)
+			zz.Assert(err2 != nil, "replay: a new assertion reusing an unexpired jti is refused")
+		} else if delta > slack {
+			// the first assertion (and with it the stored jti) has expired: reuse of the jti is outside the statement
+			zz.Cover("replay:same-jti-after-first-expired", true)
+		}
+	case 2:
+		zz.Cover("replay:fresh-jti", true)
+		zz.Assert(err2 == nil, "replay: an assertion with a fresh jti is accepted")
+		if err2 == nil {
+			w.checkAccepted(sp2, cl2, n1, "second")
+		}
 	}
 }
